@@ -14,11 +14,12 @@ import (
 func init() {
 	register(&propDef{
 		id:      "C03",
-		explain: "Structural necessary conditions of 'what the server writes is framed as its own header says': (R1) the fixed-size body writer hands the body stream to the copy primitive only through a bounding writer built from the declared size, and every use of the inner writer inside that type is bounded by (or control-dependent on a comparison with) the remaining count; (R2) on every path of writeBodyFixedSize a nil error is returned only when the copied count was compared equal to the declared size; (R3) every body-emitting call of Response.Write / writeBodyStream is control-dependent on the no-body predicate (SkipBody / 1xx-204-304); (R4) in the serve loop HEAD is tested before the response is written and the response written then has SkipBody set; a timeout response is installed with SkipBody under IsHead() of the timed-out request; (R5) SetContentLength of both header types makes the framing headers exclusive on every path: installing a numeric Content-Length removes Transfer-Encoding, installing chunked clears the Content-Length bytes. Not decided: byte-exact agreement with an independent parser, trailers, chunk encoding itself.",
+		explain: "Structural necessary conditions of 'what the server writes is framed as its own header says': (R1) the fixed-size body writer hands the body stream to the copy primitive only through a bounding writer built from the declared size, and every use of the inner writer inside that type is bounded by (or control-dependent on a comparison with) the remaining count; (R2) on every path of writeBodyFixedSize a nil error is returned only when the copied count was compared equal to the declared size; (R3) every body-emitting call of Response.Write / writeBodyStream is control-dependent on the no-body predicate (SkipBody / 1xx-204-304); (R4) in the serve loop HEAD is tested before the response is written and the response written then has SkipBody set; a timeout response is installed with SkipBody under IsHead() of the timed-out request; (R5) SetContentLength of both header types makes the framing headers exclusive on every path: installing a numeric Content-Length removes Transfer-Encoding, installing chunked clears the Content-Length bytes. (R6) every writeChunk call is either the terminator (a constant-empty argument, after which no further chunk is written in that function) or a data chunk whose length was tested non-zero on the way to the call - an empty data chunk is the last-chunk marker. Not decided: byte-exact agreement with an independent parser, trailers, chunk encoding itself.",
 		run: func(p *Prog, r *Report) {
 			runC03Bounded(p, r)
 			runC03SendBody(p, r)
 			runC03Exclusive(p, r)
+			runC03ChunkMarker(p, r)
 			p.serveLoop("C03").report(r, "C03")
 			timeoutProducerRule(p, r, "C03")
 		},
@@ -412,4 +413,83 @@ func runC03Exclusive(p *Prog, r *Report) {
 		}
 	}
 	r.Floor("R5", "framing installation sites in SetContentLength", n, 4)
+}
+
+// runC03ChunkMarker (R6): in chunked framing a zero-length chunk is the
+// last-chunk marker. Every call of writeChunk is therefore either the
+// terminator - a constant-empty argument, after which no further chunk is
+// written in that function - or a data chunk whose length was tested against
+// zero on the way to the call. A data chunk of unchecked length lets an empty
+// write (a WriterTo handing over an empty segment) end the body in the middle:
+// the rest of the body and the real terminator follow the marker on the wire.
+func runC03ChunkMarker(p *Prog, r *Report) {
+	wc := p.Func("writeChunk")
+	if wc == nil {
+		r.Undecided("R6", "writeChunk", "not found")
+		return
+	}
+	isWC := func(i ssa.Instruction) bool {
+		c, ok := i.(ssa.CallInstruction)
+		return ok && c.Common().StaticCallee() == wc
+	}
+	n := 0
+	ord := map[*ssa.Function]int{}
+	for _, fn := range p.funcsIn("") {
+		for _, b := range fn.Blocks {
+			for _, in := range b.Instrs {
+				if !isWC(in) {
+					continue
+				}
+				c := in.(ssa.CallInstruction)
+				arg := c.Common().Args[1]
+				n++
+				ord[fn]++
+				empty := isNilConst(arg)
+				var lenExpr ssa.Value
+				if sl, ok := arg.(*ssa.Slice); ok && sl.Low == nil {
+					if k, isK := constInt(sl.High); isK && k == 0 {
+						empty = true
+					}
+					lenExpr = sl.High
+				}
+				label := fmt.Sprintf("%s: writeChunk call #%d", funcName(fn), ord[fn])
+				if empty {
+					hit, path := reachAvoiding(fn, in, isWC, nil, nil)
+					r.Check("R6", label+" (terminator) is the last chunk written on its path", hit == nil, p.Pos(in.Pos()),
+						"another chunk can be written after the zero-length chunk: a peer stops reading the body at the marker", blocksString(p, path)...)
+					continue
+				}
+				tested := false
+				for _, g := range guardsOfDepth(b, 0) {
+					bo, ok := g.Cond.(*ssa.BinOp)
+					if !ok {
+						continue
+					}
+					z, isZ := constInt(bo.Y)
+					if !isZ || z != 0 {
+						continue
+					}
+					isLen := false
+					if lenExpr != nil && bo.X == lenExpr {
+						isLen = true
+					}
+					if cl, ok := bo.X.(*ssa.Call); ok {
+						if bi, ok := cl.Call.Value.(*ssa.Builtin); ok && bi.Name() == "len" && len(cl.Call.Args) == 1 && (cl.Call.Args[0] == arg || (lenExpr == nil && rootOf(cl.Call.Args[0]) == rootOf(arg))) {
+							isLen = true
+						}
+					}
+					if !isLen {
+						continue
+					}
+					switch {
+					case bo.Op == token.EQL && !g.Pol, bo.Op == token.NEQ && g.Pol, bo.Op == token.GTR && g.Pol, bo.Op == token.LEQ && !g.Pol:
+						tested = true
+					}
+				}
+				r.Check("R6", label+" (data) is reached only with a chunk whose length was found non-zero", tested, p.Pos(in.Pos()),
+					"the chunk's length is not tested against zero before it is framed: an empty write is emitted as '0\\\\r\\\\n', the last-chunk marker, in the middle of the body")
+			}
+		}
+	}
+	r.Floor("R6", "writeChunk calls", n, 4)
 }
